@@ -97,7 +97,7 @@ class Interp:
     def __init__(self, src_path, fname, extra_globals=None):
         tree = ast.parse(open(src_path).read())
         self.fn = next(n for n in ast.walk(tree) if isinstance(n, ast.FunctionDef) and n.name == fname)
-        self.errs = []
+        self.errs = []; self.solver = None; self.max_unroll = 50; self.unrolls = []; self.assumes = []
         self.globals = {"uint64": lambda x: x, "range": range, "len": len, "enumerate": enumerate,
                         "min": self.smin, "max": self.smax, "numpy": self, "math": math}
         if extra_globals: self.globals.update(extra_globals)
@@ -113,6 +113,27 @@ class Interp:
     def smax(self, a, b):
         if is_sym(a) or is_sym(b): return ITE(simp(zv(a) > zv(b)), a, b)
         return max(a, b)
+    def argmin(self, arr, g):
+        vals = [arr.a[k] for k in range(arr.a.shape[0])]
+        if all(not is_sym(v) for v in vals): return int(numpy.argmin([float(v) for v in vals]))
+        am = z3.FreshConst(z3.IntSort(), 'argmin')
+        cs = [am >= 0, am < len(vals)]
+        for k, v in enumerate(vals):
+            cs.append(z3.Implies(am == k, z3.And([zv(v) <= zv(w) for w in vals] + [zv(v) < zv(w) for w in vals[:k]])))
+        self.assumes.append(z3.And(cs))
+        if self.solver is not None: self.solver.add(z3.And(cs))
+        return am
+    def bound(self, e, g, minimize):
+        if not is_sym(e): return int(e)
+        o = z3.Optimize()
+        for a in self.solver.assertions(): o.add(a)
+        if is_sym(g): o.add(g)
+        h = o.minimize(e) if minimize else o.maximize(e)
+        if o.check() != z3.sat: return None
+        v = (o.lower(h) if minimize else o.upper(h))
+        return v.as_long()
+    def run_block(self, stmts, env):
+        self.block(stmts, env, True, {}); return env
     def call(self, *args):
         env = {a.arg: v for a, v in zip(self.fn.args.args, args)}
         self.block(self.fn.body, env, True, {})
@@ -139,12 +160,55 @@ class Interp:
             self.block(s.orelse, env, AND(g, NOT(c)), fl); return
         if isinstance(s, ast.Continue):
             fl['cont'] = OR(fl.get('cont', False), g); return
+        if isinstance(s, ast.Break):
+            fl['brk'] = OR(fl.get('brk', False), g); return
         if isinstance(s, ast.For):
+            symr = None
+            if isinstance(s.iter, ast.Call) and getattr(s.iter.func, 'id', None) == 'range':
+                rargs = [self.ev(a, env, g) for a in s.iter.args]
+                if any(is_sym(a) for a in rargs):
+                    lo, hi = (0, rargs[0]) if len(rargs) == 1 else (rargs[0], rargs[1])
+                    symr = (lo, hi)
+            if symr is not None:
+                lo, hi = symr
+                lo_c = self.bound(lo, g, minimize=True); hi_c = self.bound(hi, g, minimize=False)
+                if lo_c is None or hi_c is None: return
+                brk = False
+                for item in range(lo_c, hi_c):
+                    gi = AND(g, NOT(brk), simp(zv(lo) <= item), simp(item < zv(hi)))
+                    if gi is False: continue
+                    lfl = {'brk': brk}
+                    self.assign(s.target, item, env, True)
+                    self.block(s.body, env, gi, lfl)
+                    brk = lfl.get('brk', False)
+                if s.orelse: self.block(s.orelse, env, AND(g, NOT(brk)), fl)
+                return
             it = self.ev(s.iter, env, g)
+            brk = False
             for item in it:
-                lfl = {}
-                self.assign(s.target, item, env, True)   # loop var assignment is unconditional (concrete)
-                self.block(s.body, env, g, lfl)
+                lfl = {'brk': brk}
+                gi = AND(g, NOT(brk))
+                if gi is False: break
+                self.assign(s.target, item, env, gi)
+                self.block(s.body, env, gi, lfl)
+                brk = lfl.get('brk', False)
+            if s.orelse:
+                self.block(s.orelse, env, AND(g, NOT(brk)), fl)
+            return
+        if isinstance(s, ast.While):
+            brk = False; n = 0
+            while True:
+                c = self.truth(self.ev(s.test, env, g))
+                gi = AND(g, c, NOT(brk))
+                if gi is False: break
+                if self.solver is not None and is_sym(gi) and self.solver.check(gi) == z3.unsat: break
+                n += 1
+                if n > self.max_unroll:
+                    self.errs.append((gi, "unwinding bound exceeded")); break
+                lfl = {'brk': brk}
+                self.block(s.body, env, gi, lfl)
+                brk = lfl.get('brk', False)
+            self.unrolls.append(n)
             return
         raise NotImplementedError(ast.dump(s)[:80])
     def _load(self, t):
@@ -203,6 +267,10 @@ class Interp:
             arr = self.ev(e.value, env, g); idx = self.ev(e.slice, env, g)
             if isinstance(arr, Arr): return arr.load(idx, g)
             return arr[idx]
+        if isinstance(e, ast.Call) and isinstance(e.func, ast.Attribute) and e.func.attr == 'append':
+            lst = self.ev(e.func.value, env, g); lst.append((g, self.ev(e.args[0], env, g))); return None
+        if isinstance(e, ast.Call) and isinstance(e.func, ast.Attribute) and e.func.attr == 'argmin':
+            arr = self.ev(e.func.value, env, g); return self.argmin(arr, g)
         if isinstance(e, ast.Call):
             f = self.ev(e.func, env, g); args = [self.ev(a, env, g) for a in e.args]
             kw = {k.arg: self.ev(k.value, env, g) for k in e.keywords}
